@@ -574,9 +574,11 @@ pub fn verif_root() -> String {
 pub fn run_check(spec: CheckSpec) -> i32 {
     let t0 = Instant::now();
     let nworkers: usize = std::env::var("VERIF_WORKERS").ok().and_then(|s| s.parse().ok()).unwrap_or(16);
-    let queue: Arc<Mutex<VecDeque<Job>>> = Arc::new(Mutex::new(spec.jobs.iter().cloned().collect()));
+    let mut spec = spec;
+    let first_free_id = spec.jobs.iter().map(|j| j.id).max().unwrap_or(0) + 1;
+    let queue: Arc<Mutex<VecDeque<Job>>> = Arc::new(Mutex::new(VecDeque::from(std::mem::take(&mut spec.jobs))));
     let agg: Arc<Mutex<Agg>> = Arc::new(Mutex::new(Agg::default()));
-    let next_id = Arc::new(Mutex::new(spec.jobs.iter().map(|j| j.id).max().unwrap_or(0) + 1));
+    let next_id = Arc::new(Mutex::new(first_free_id));
     let inflight = Arc::new(Mutex::new(0usize));
     let split = Arc::new(spec.split.clone());
     let deadline = t0 + spec.wall_cap;
